@@ -81,13 +81,18 @@ class MacroCheck:
         rep.assumptions = ["rustc's semantics of the emitted tokens is trusted beyond the executed behavioural cases",
                            "IR facts are extracted from the real generator's output by /verif/macroharness/src/ir.rs (syn visitor)"]
         engine.lean_obligations(self.prop, self.theorems, rep, thorough=(tier == 'thorough'))
-        ok, log = mc.build_macrolib()
+        self.explore_into(rep, tier, seed)
+        return rep.finish()
+
+    def explore_into(self, rep, tier, seed, ir=True, merge=False):
+        """IR tie with the real generator (unless ir=False) + compiled behavioural cases, added to `rep`"""
+        ok, log = mc.build_macrolib() if ir else (True, '')
         total = 0; nontriv = 0; samples = []
         spec_bad = []; tie_bad = []
         if not ok:
             path = engine.write_replay(self.prop, 'build', log + '\n', ["the macro harness (real generator included by path) no longer builds"])
             rep.violation(path, "macro harness does not build against /repo/unimock_macros", no_input=True)
-        else:
+        elif ir:
             traits = shape_family(tier, seed)
             real, model = mc.run_both(traits)
             for t in traits:
@@ -144,7 +149,11 @@ class MacroCheck:
             rt = self.runtime
             rt.prop = self.prop
             rt.explore(rep, tier, seed, None, merge=True)
+        if merge:
+            rep.coverage['generated_impls'] = {'ir_blocks_compared': total, 'behavioural_cases': cases_run}
+            rep.coverage['evaluations'] = rep.coverage.get('evaluations', 0) + total + cases_run
+            rep.coverage['distinct_nontrivial'] = rep.coverage.get('distinct_nontrivial', 0) + nontriv + cases_run
+            return
         rep.coverage.update({'evaluations': rep.coverage.get('evaluations', 0) + total + cases_run, 'distinct_nontrivial': rep.coverage.get('distinct_nontrivial', 0) + nontriv, 'rule': self.rule(), 'samples': samples,
                              'programs': total, 'behavioural_cases': cases_run, 'disagreements_checked': len(spec_bad) + len(tie_bad),
                              'explanation': 'theorems about the Lean code-generation model; the model is compared fact by fact with what the real generator (run as a library) emits for every shape of the family; a compiled sample validates the facts\' meaning'})
-        return rep.finish()
